@@ -84,6 +84,9 @@ func (g *Gen) Chunks(cur []Chunk) []Chunk {
 	for _, c := range dropped {
 		if c.Man && r.Chance(g.RewrapPct*3, 100) {
 			sub := g.W.MsProj[c.Key]
+			if len(sub) == 0 {
+				continue
+			}
 			if r.Bool() {
 				out = append(out, sub...)
 			} else {
@@ -268,8 +271,21 @@ func (g *Gen) op1(mix Mix) Op {
 	case OpLink:
 		from := g.pickPath(92, true)
 		to := r.PickStr(g.Paths)
+		// the kernel only calls Link for a new name that does not exist
+		var absent []string
+		for _, p := range g.Paths {
+			if _, found := g.viewAt(p); !found {
+				d, _ := DirName(p)
+				if de, ok := g.viewAt(d); d == "/" || (ok && de.Dir) {
+					absent = append(absent, p)
+				}
+			}
+		}
+		if len(absent) > 0 && !(malformed && r.Bool()) {
+			to = r.PickStr(absent)
+		}
 		id := g.FreshId()
-		if malformed || id == 0 {
+		if (malformed && r.Bool()) || id == 0 {
 			id = LinkIds[r.Intn(len(LinkIds))]
 		}
 		return Op{Kind: OpLink, Path: from, Path2: to, NewId: id}
